@@ -213,6 +213,30 @@ class Ctx:
         self.violation(what + " :: " + (lines[matched][:300] if matched < len(lines) else ""), rp)
         return False
 
+    def make_cfg(self, base, new, consts):
+        """copy of a cfg in the flat directory with some `Name = value` constants replaced"""
+        txt = open(os.path.join(self.flat, base)).read()
+        for k, v in consts.items():
+            txt, n = re.subn(r"(?m)^(\s*%s\s*=\s*).*$" % re.escape(k), lambda m: m.group(1) + str(v), txt)
+            if n != 1:
+                raise ToolError("constant %s not found in %s" % (k, base))
+        open(os.path.join(self.flat, new), "w").write(txt)
+        return new
+
+    def replay_stage(self, what, res, beh_file=None):
+        """book-keeping for a harness replay of generated behaviours (spec -> impl)"""
+        self.cov["stages"].append({"stage": "replay", "what": what, **{k: res[k] for k in ("behaviours", "steps", "mismatches") if k in res}})
+        self.count(res.get("steps", 0))
+        self.cov["distinct_nontrivial"] += res.get("behaviours", 0)
+        if res.get("sample") is not None:
+            self.sample({what: res["sample"]})
+        if beh_file and os.path.exists(beh_file):
+            os.remove(beh_file)
+        if res.get("mismatches"):
+            rp = self.write_replay("gen-" + what, {"what": what + " disagrees with a behaviour generated from the specification", "first": res["first"]})
+            self.violation("%s: %d generated behaviours disagree, e.g. %s" % (what, res["mismatches"], res["first"][0]["what"]), rp)
+        log("REPLAY %s: %s behaviours, %s steps, %s mismatches" % (what, res.get("behaviours"), res.get("steps"), res.get("mismatches")))
+
     # ---------------------------------------------------------------- results
     def count(self, evaluations=0, nontrivial_keys=()):
         self.cov["evaluations"] += evaluations
